@@ -46,6 +46,17 @@ type c07Case struct {
 	HasOutsider bool
 	Outsider    int
 	OutMoves    []c07OutMove
+	// Inline: deliveries that happen in the MIDDLE of a library function - when honest member Member makes its Nth debug
+	// log call, the next frame pending for it (on its Link-th non-empty incoming link) is handled right there, on the
+	// logging goroutine. The log statements are the yield points; no quiescent point of the schedule separates, e.g., the
+	// end of the collection loop of Synchronize from the query it sends next.
+	Inline []c07Inline
+}
+
+type c07Inline struct {
+	Member int // honest member index
+	Fmt    int // which log statement: the Fmt-th distinct format string this member uses (in order of first use)
+	Nth    int // 0 = at every execution of that statement, otherwise only at its Nth execution
 }
 
 type c07OutMove struct {
@@ -165,6 +176,9 @@ func genC07(byzantine bool) func(t *rapid.T) c07Case {
 				})
 			}
 		}
+		for i := rapid.IntRange(0, 4).Draw(t, "ninline"); i > 0; i-- {
+			c.Inline = append(c.Inline, c07Inline{Member: rapid.IntRange(0, nh-1).Draw(t, "imember"), Fmt: rapid.IntRange(0, 7).Draw(t, "ifmt"), Nth: rapid.SampledFrom([]int{0, 0, 1, 2}).Draw(t, "inth")})
+		}
 		c.Sched = genSchedule(t, 300)
 		c.ProbeMs = rapid.SampledFrom([]int{200, 200, 50, 1000}).Draw(t, "probe")
 		for range c.Honest {
@@ -192,13 +206,14 @@ type c07Result struct {
 }
 
 type c07Info struct {
-	OutsiderFrames int
-	Results        []c07Result
-	Frames         int
-	LiesApplied    int
-	BigIDs         bool
-	Staggered      bool
-	Completed      int
+	OutsiderFrames   int
+	InlineDeliveries int
+	Results          []c07Result
+	Frames           int
+	LiesApplied      int
+	BigIDs           bool
+	Staggered        bool
+	Completed        int
 }
 
 const c07Deadline = 30 * time.Second
@@ -253,9 +268,65 @@ func runC07(c c07Case) *vh.Outcome {
 	br := sim.Bubble(theT, func() {
 		net := sim.NewNet()
 		members := map[uint16]*discovery.Member{}
+		var inlineObserve func(*sim.Frame) // what the driver's BeforeDeliver observes, for frames delivered inline
 		for _, id := range uni {
 			id := id
-			m := &discovery.Member{Membership: append([]uint16(nil), uni...), ID: id, Logger: &sim.Logger{}}
+			lg := &sim.Logger{}
+			m := &discovery.Member{Membership: append([]uint16(nil), uni...), ID: id, Logger: lg}
+			for hi, hp := range c.Honest {
+				if uni[hp] != id {
+					continue
+				}
+				hi := hi
+				inHook := false
+				fmtIdx := map[string]int{}
+				fmtCount := map[string]int{}
+				var hmu sync.Mutex // several goroutines of one member log (one Synchronize per topic, the dispatcher)
+				lg.OnDebug = func(format string) {
+					hmu.Lock()
+					if inHook {
+						hmu.Unlock()
+						return
+					}
+					if _, ok := fmtIdx[format]; !ok {
+						fmtIdx[format] = len(fmtIdx)
+					}
+					fmtCount[format]++
+					idx, cnt := fmtIdx[format], fmtCount[format]
+					fire := false
+					for _, in := range c.Inline {
+						if in.Member%len(c.Honest) == hi && in.Fmt == idx && (in.Nth == 0 || in.Nth == cnt) {
+							fire = true
+						}
+					}
+					if fire {
+						inHook = true
+					}
+					hmu.Unlock()
+					if !fire {
+						return
+					}
+					{
+						// everything that is pending for this member is handled right here, in the middle of whatever
+						// library function is logging
+						for _, l := range net.Pending() {
+							if l.To != id {
+								continue
+							}
+							for f := net.Pop(l); f != nil; f = net.Pop(l) {
+								info.InlineDeliveries++
+								if inlineObserve != nil {
+									inlineObserve(f)
+								}
+								members[id].HandleMessage(f.From, append([]byte(nil), f.Data...))
+							}
+						}
+						hmu.Lock()
+						inHook = false
+						hmu.Unlock()
+					}
+				}
+			}
 			m.Broadcast = func(msg []byte) {
 				for _, q := range uni {
 					if q != id {
@@ -427,6 +498,7 @@ func runC07(c c07Case) *vh.Outcome {
 				synctest.Wait()
 			}
 		}
+		inlineObserve = func(f *sim.Frame) { d.BeforeDeliver(f) }
 		var scriptAction, outsiderAction func() []sim.Action
 		{
 			latestView := func(id uint16) []uint16 {
@@ -644,9 +716,12 @@ func runC07(c c07Case) *vh.Outcome {
 		info.Results = append(info.Results, *r)
 	}
 	o.Key = fmt.Sprintf("%+v", c)
-	o.NonTrivial = info.LiesApplied > 0 || info.BigIDs || info.Staggered || info.OutsiderFrames > 0
+	o.NonTrivial = info.LiesApplied > 0 || info.BigIDs || info.Staggered || info.OutsiderFrames > 0 || info.InlineDeliveries > 0
 	if info.OutsiderFrames > 0 {
 		o.Classes = append(o.Classes, "outsider-with-a-member's-tag")
+	}
+	if info.InlineDeliveries > 0 {
+		o.Classes = append(o.Classes, "delivery-in-the-middle-of-a-library-function")
 	}
 	if info.LiesApplied > 0 {
 		o.Classes = append(o.Classes, "byzantine-lie-applied")
